@@ -993,10 +993,16 @@ func (d *Data) sendJSONValuesInRange(w http.ResponseWriter, r *http.Request, ctx
 	case tarOut:
 		tw.Close()
 	case jsonOut:
+		if err != nil {
+			return // don't replace a read or deserialization error by the result of the final write
+		}
 		if _, err = w.Write([]byte("}")); err != nil {
 			return
 		}
 	default:
+		if err != nil {
+			return
+		}
 		numKeys = len(kvs.Kvs)
 		var serialization []byte
 		if serialization, err = pb.Marshal(&kvs); err != nil {
